@@ -136,6 +136,12 @@ impl Collector {
     pub fn bound(&self, k: &str, v: Value) {
         self.bounds.lock().unwrap().insert(k.to_string(), v);
     }
+    pub fn signatures(&self) -> Vec<String> {
+        self.viol.lock().unwrap().keys().cloned().collect()
+    }
+    pub fn details(&self) -> Vec<(String, String)> {
+        self.viol.lock().unwrap().iter().map(|(k, (v, _))| (k.clone(), v.detail.clone())).collect()
+    }
     pub fn n_violation_sigs(&self) -> usize {
         self.viol.lock().unwrap().len()
     }
